@@ -1360,6 +1360,24 @@ pub fn gen_c18(rng: &mut Rng, tier: &str, out: &mut Out) {
         out.d(format!("UUID {}", hx(&b)));
         out.count("random_inputs");
     }
+    // byte-order marks, NUL bytes, and pairs of equal-length inputs (evaluated in one reused buffer)
+    for pre in [&b"\xef\xbb\xbf"[..], b"\xef\xbb\xbf\xef\xbb\xbf", b"\xff\xfe", b"\x00", b"\r\n", b"\n", b" "] {
+        out.d(format!("UUID {}", hx(pre)));
+        let mut v = pre.to_vec();
+        v.extend_from_slice(b"a -> b:\n");
+        out.d(format!("UUID {}", hx(&v)));
+        let mut w = b"a -> b:\n".to_vec();
+        w.extend_from_slice(pre);
+        out.d(format!("UUID {}", hx(&w)));
+    }
+    for _ in 0..(if th { 400 } else { 60 }) {
+        let len = rng.range(1, 300);
+        for _ in 0..3 {
+            let b: Vec<u8> = (0..len).map(|_| rng.next() as u8).collect();
+            out.d(format!("UUID {}", hx(&b)));
+        }
+        out.count("equal_length_triples");
+    }
     if th {
         let mut b = vec![0u8; 1 << 20];
         for x in b.iter_mut() {
